@@ -135,6 +135,8 @@ def T(x):
     """z3 term of a scalar (SV or concrete)"""
     if isinstance(x, SV):
         return x.t
+    if isinstance(x, XorSet):
+        return T(x.to_sv())
     x = _pyval(x)
     if isinstance(x, bool):
         return z3.BoolVal(x)
@@ -396,22 +398,6 @@ def S_xor(a, b):
         return a ^ b
     if _is_boolish(a) and _is_boolish(b):
         return mk(simp(z3.Xor(TB(a), TB(b))))
-    if not isinstance(a, XorSet) and not isinstance(b, XorSet):
-        a, b = _solver_bounds(a), _solver_bounds(b)
-        (la, ha), (lb, hb) = _bnd(a), _bnd(b)
-        if None not in (la, ha, lb, hb) and la >= 0 and lb >= 0 and max(ha, hb) < 256:
-            # small non-negative operands: exact bit decomposition
-            if is_conc(a) and _pyval(a) == 0:
-                return b
-            if is_conc(b) and _pyval(b) == 0:
-                return a
-            ta, tb = TI(a), TI(b)
-            nbits = max(ha, hb).bit_length()
-            tot = z3.IntVal(0)
-            for k in range(nbits):
-                w = 1 << k
-                tot = tot + ((ta / w) % 2 + (tb / w) % 2) % 2 * w
-            return mk(simp(tot), 0, (1 << nbits) - 1)
     return XorSet.make(a, b)
 
 
@@ -421,7 +407,7 @@ def _solver_bounds(a):
         return a
     if a.lo is not None and a.hi is not None and a.lo >= 0 and a.hi < 256:
         return a
-    if not ENGINE.active:
+    if not ENGINE.has_path:
         return a
     if not ENGINE.prove(a.t >= 0):
         return a
@@ -429,6 +415,27 @@ def _solver_bounds(a):
         if ENGINE.prove(a.t < (1 << k)):
             return SV(a.t, 0, (1 << k) - 1)
     return a
+
+
+def _xor_bits(a, b):
+    """a ^ b for small non-negative integers by exact bit decomposition (bounds from the solver if needed)"""
+    if is_conc(a) and is_conc(b):
+        return a ^ b
+    if is_conc(a) and _pyval(a) == 0:
+        return b
+    if is_conc(b) and _pyval(b) == 0:
+        return a
+    a, b = _solver_bounds(a), _solver_bounds(b)
+    (la, ha), (lb, hb) = _bnd(a), _bnd(b)
+    if None in (la, ha, lb, hb) or la < 0 or lb < 0 or max(ha, hb) >= 256:
+        raise UnsupportedSymbolicOp(f"integer xor of unbounded symbolic values {a!r} ^ {b!r}")
+    ta, tb = TI(a), TI(b)
+    nbits = max(ha, hb).bit_length()
+    tot = z3.IntVal(0)
+    for k in range(nbits):
+        w = 1 << k
+        tot = tot + ((ta / w) % 2 + (tb / w) % 2) % 2 * w
+    return mk(simp(tot), 0, (1 << nbits) - 1)
 
 
 class XorSet:
@@ -471,6 +478,13 @@ class XorSet:
         return XorSet.make(self, o)
     __rxor__ = __xor__
 
+    def to_sv(self):
+        """resolve the normal form to one term (bit decomposition; needs small non-negative operands)"""
+        acc = self.const
+        for it in self.items.values():
+            acc = _xor_bits(acc, it)
+        return acc
+
     def __repr__(self):
         return f"XorSet({list(self.items.values())}, {self.const})"
 
@@ -506,8 +520,10 @@ def S_min(a, b):
 def S_where(c, a, b):
     if is_conc(c):
         return a if c else b
-    if isinstance(a, XorSet) or isinstance(b, XorSet):
-        raise UnsupportedSymbolicOp("where over xor normal form")
+    if isinstance(a, XorSet):
+        a = a.to_sv()
+    if isinstance(b, XorSet):
+        b = b.to_sv()
     if is_conc(a) and is_conc(b) and type(_pyval(a)) == type(_pyval(b)) and _pyval(a) == _pyval(b):
         return a
     ta, tb = T(a), T(b)
@@ -774,6 +790,7 @@ class Engine:
         self.realisations = 0
         self.forbid_realisation = True
         self.active = False
+        self.has_path = False
         self.counter = 0
 
     # -- solver plumbing
@@ -804,6 +821,7 @@ class Engine:
         self.replay = replay
         self.model = None
         self.active = True
+        self.has_path = True
 
     def add(self, c):
         if c is True or z3.is_true(c):
